@@ -83,6 +83,7 @@ type Sched struct {
 	ch      Chooser
 	steps   int
 	ops     int64 // visible operations performed (yields excluded)
+	writes  int64 // state-changing operations performed (stores, unlocks, closes, ...)
 	Horizon int
 	killed  bool
 	Out     Outcome
@@ -330,16 +331,26 @@ func Yield() {
 		runtime.Goexit()
 	}
 	t := s.cur
-	at := s.ops
+	// A spinner waits for a state change. Reads performed by other spinners
+	// must not wake it, otherwise two spinners can starve the thread they are
+	// both waiting for (an unfair schedule the Go scheduler never produces).
+	at := s.writes
 	t.yielded = true
 	t.what = "yield"
-	t.wait = func() bool { return s.ops > at }
+	t.wait = func() bool { return s.writes > at }
 	s.parked <- t
 	<-t.wake
 	if s.killed {
 		runtime.Goexit()
 	}
 	t.wait = nil
+}
+
+// Wrote is called by the shims after every state-changing operation.
+func Wrote() {
+	if s := S; s != nil {
+		s.writes++
+	}
 }
 
 // Step is an explicit scheduling point with no blocking condition (used by
@@ -367,6 +378,7 @@ func Release(o *Sync) {
 	t := s.cur
 	o.vc = append(VC(nil), o.vc.join(t.vc)...)
 	t.tick()
+	s.writes++
 }
 
 // Touch records an access to a synchronisation object in the canonical
